@@ -9,7 +9,7 @@ from engine.ctx import exc_label
 FUNCTIONS = ['bycycle.utils.dataframes.limit_df', 'bycycle.utils.dataframes.get_extrema_df',
              'bycycle.utils.timeseries.limit_signal', 'bycycle.utils.dataframes.split_samples_df',
              'bycycle.utils.dataframes.drop_samples_df', 'bycycle.utils.dataframes.flatten_dfs']
-BOUNDS = {'quick': 'limit_df: 1..3 cycles, both centrings, start/stop each None or real with fs*start <= 12, fs in {1,2,0.5}, reset_indices both; limit_signal: <= 5 samples; split/drop: 1..3 rows; flatten_dfs: 1..3 tables (1-D), up to 2x2 (2-D)',
+BOUNDS = {'quick': 'limit_df: 1..3 cycles, both centrings, sample indices <= 8, start/stop each None or real with fs*start <= 6 and fs*stop <= 9, fs in {1,2,0.5}, reset_indices both; limit_signal: <= 5 samples; split/drop: 1..3 rows; flatten_dfs: 1..3 tables (1-D), up to 2x2 (2-D)',
           'thorough': 'limit_df: 1..4 cycles, fs in {1,2,0.5,4}; limit_signal <= 7 samples; flatten_dfs up to 4 tables / 2x3'}
 OUTSIDE = 'IEEE rounding of fs*start and int(fs*start) (exact reals here; see the C20 floating-point kernels); longer tables'
 STUBS = []
@@ -93,15 +93,16 @@ def run(ctx, cfg):
     if fn == 'limit_df':
         rows, centre, fs, reset = cfg['rows'], cfg['centre'], cfg['fs'], cfg['reset']
         data, scols = sample_table(ctx, rows, centre)
-        ctx.assume(data[scols[-1]][-1] <= 12)
+        ctx.assume(data[scols[-1]][-1] <= 8)
         start = stop = None
         if cfg['start'] == 'real':
             start = ctx.real('start')
             ctx.assume(start >= 0)
-            ctx.assume(start * fs <= 12)
+            ctx.assume(start * fs <= 6)
         if cfg['stop'] == 'real':
             stop = ctx.real('stop')
             ctx.assume(stop >= (start if start is not None else 0))
+            ctx.assume(stop * fs <= 9)
         df = pd.DataFrame({c: list(v) for c, v in data.items()})
         kw = {}
         if start is not None:
